@@ -24,7 +24,7 @@ current non-stopped phase and every pending op has a small local state:
                                                                     ("timed_out" — threaded shutdown(timeout) — once the stop request is made)
     server_close    new -> applied                                  returns None (closed flag set; serving -> stopping)
                     new -> busy                                     BusyResourceError, only while a serve_forever is starting
-    client          new -> served                                   answered: the server was serving/stopping at some instant of the call
+    client          new -> served                                   answered: the server was not stopped at some instant of the call
                     new -> failed                                   not answered: the server was NOT serving at some instant of the call
 
 Silent transitions: starting -> serving (never when closed), starting+closed -> stopped (runner fails closed),
@@ -32,7 +32,8 @@ stopping/aborting -> stopped (runner returns None), aborting+closed -> stopped (
 ``starting -> aborting`` and ``serving -> stopping`` need a shutdown (or, for serving, a close) to take effect.
 
 Observations: ``observe_up(op)`` (the runner signalled "server is up": it is serving right now),
-``observe_handler()`` (a request handler ran: serving or stopping right now), ``observe_is_serving(value)``.
+``observe_handler()`` (a request handler ran: not stopped right now — with several listeners the first one
+already serves during the end of the set-up window), ``observe_is_serving(value)``.
 
 What follows from the model (the clauses of the property): shutdown returns only after serving has fully stopped (after its
 return, ``is_serving() == True`` or a handler event needs a serve_forever that was still pending); a stopped server serves
@@ -122,7 +123,7 @@ def _decide(c: Config, idx: int, allow_busy: bool) -> Iterator[Config]:
             yield Config(STOPPING if phase == SERVING else phase, True, runner, _set(ops, idx, "applied"))
     elif kind == CLIENT:
         if st == "new":
-            if phase in (SERVING, STOPPING):
+            if phase != STOPPED:  # late start-up included: the first listener already serves while the next one is being started
                 yield Config(phase, closed, runner, _set(ops, idx, SERVED))
             if phase != SERVING:
                 yield Config(phase, closed, runner, _set(ops, idx, FAILED))
@@ -266,7 +267,8 @@ class LifecycleModel:
 
     def observe_handler(self, seq: Any = None) -> None:
         self.history.append(("handler",) if seq is None else (seq, "handler"))
-        self._filter(lambda c: c.phase in (SERVING, STOPPING), "no-handler-activity-unless-serving", "handler", "a request handler ran")
+        # a handler may already run in the late set-up window (several listeners are started one after the other), never while stopped
+        self._filter(lambda c: c.phase != STOPPED, "no-handler-activity-while-stopped", "handler", "a request handler ran")
 
     def observe_is_serving(self, value: bool, seq: Any = None) -> None:
         self.history.append(("is_serving", value) if seq is None else (seq, "is_serving", value))
